@@ -272,7 +272,7 @@ def run_case(ch: Choices, params: dict) -> dict:
     users = []
     for i in range(ch.rng_int(1, 3, "n_user_objs")):
         kind = ch.pick(SIMS, "user_kind")
-        seed = [None, 11, 12][ch.draw(3, "user_seed")]
+        seed = [None, 11, 1, 0][ch.draw(4, "user_seed")]   # may coincide with an instance seed
         users.append((simcls[kind](random_seed=seed), spec_of(simcls[kind](random_seed=seed))))
         if seed is not None:
             faults["preseeded_user_object"] += 1
@@ -327,7 +327,7 @@ def run_case(ch: Choices, params: dict) -> dict:
                 m = ch.draw(17, "method")
                 new = None
                 if m == 0 or m == 1 or m == 2:
-                    v = [None, 1, 2, 3][ch.draw(4, "seed")]
+                    v = [None, 1, 2, 3, 0][ch.draw(5, "seed")]   # 0: a falsy seed
                     new, op = h.with_seed(v), f"with_seed({v})"
                     rec["seed"] = v
                     rec["sim"] = (rec["sim"][0], v, rec["sim"][2])
@@ -362,7 +362,7 @@ def run_case(ch: Choices, params: dict) -> dict:
                     w = ch.draw(3, "sim_source")
                     if w == 0:      # fresh object
                         kind = ch.pick(SIMS, "kind")
-                        s = [None, 21, 22][ch.draw(3, "own_seed")]
+                        s = [None, 21, 2, 0][ch.draw(4, "own_seed")]
                         obj, spec = simcls[kind](random_seed=s), None
                         spec = spec_of(obj)
                         op = f"with_simulator({kind}(random_seed={s}))"
@@ -384,12 +384,12 @@ def run_case(ch: Choices, params: dict) -> dict:
                     op = ("statevector_sim()", "stabilizer_sim()", "coinflip_sim()")[which]
                     rec["sim"] = spec_of((Quest, Stim, Coinflip)[which]())
                 elif m == 13:
-                    s = [None, 31][ch.draw(2, "rt_seed")]
+                    s = [None, 31, 1][ch.draw(3, "rt_seed")]
                     obj = (SimpleRuntime if ch.draw(2, "rt_kind") else SoftRZRuntimePlugin)(random_seed=s)
                     new, op = h.with_runtime(obj), f"with_runtime({type(obj).__name__}(random_seed={s}))"
                     rec["runtime"] = spec_of(obj)
                 elif m == 14:
-                    s = [None, 41][ch.draw(2, "em_seed")]
+                    s = [None, 41, 2, 0][ch.draw(4, "em_seed")]
                     if ch.draw(2, "em_kind"):
                         obj = DepolarizingPlugin(random_seed=s, p_1q=0.3, p_2q=0.3, p_meas=0.3, p_init=0.3)
                     else:
